@@ -34,6 +34,11 @@ let () = main_loop (fun toks ->
       let outs = List.map (fun o ->
         let a = split_on ':' o in
         let r = (match a with
+          | ["M"; i; _; _] when not (okn i) -> "BAD-OP"
+          | ["M"; i; now; mb] ->
+              let (r, d') = load_limited (n_of_int (int_of_string mb * 1048576)) (z_of_string now) (nth_name i) !d in
+              d := d';
+              (match r with LNone -> "M=none" | LExc -> "M=EXC" | LSome (t, data) -> "M=" ^ string_of_z t ^ "." ^ hex_of_bytes data)
           | [("S"|"L"|"X"|"K"); i] | [("S"|"L"|"X"|"K"); i; _] | [("S"|"L"|"X"|"K"); i; _; _] | [("S"|"L"|"X"|"K"); i; _; _; _] when not (okn i) -> "BAD-OP"
           | ["S"; i; t; h] ->
               let t = z_of_string t and data = bytes_of_hex h in
@@ -53,6 +58,9 @@ let () = main_loop (fun toks ->
               (* threads: with the per-sid lock every load sees a complete record; the script ends with remove + save "final" *)
               d := save (nth_name i) (z_of_string t) (name_of_string "final") (remove (nth_name i) !d); "T=ok"
           | ["T"; _; _; _; _; _] -> "BAD-OP"
+          | ["U"; i; t; _; _; _] when okn i && fl = "F1" ->
+              d := save (nth_name i) (z_of_string t) (name_of_string "final") (remove (nth_name i) !d); "U=ok"
+          | ["U"; _; _; _; _; _] -> "BAD-OP"
           | ["V"; h] -> (match valid_sid (bytes_of_hex h) with None -> "V=none" | Some id -> "V=" ^ hex_of_bytes id)
           | ["Q"; now; h] ->
               let (r, d') = sid_load (z_of_string now) (bytes_of_hex h) !d in
